@@ -693,16 +693,28 @@ class Interp:
                 v = _MISSING
                 for i_, node_ in enumerate(hist):
                     fr = Frame(self, r[1], r[1])
+                    self._bind_redefined(fr, r[1], node_)
                     if v is not _MISSING:
                         fr.vars[home_name] = v
                     v = self.symconst[dotted] if i_ == 0 and dotted in self.symconst else self.eval(node_, fr)
             else:
                 fr = Frame(self, r[1], r[1])
+                self._bind_redefined(fr, r[1], r[2])
                 v = self.eval(r[2], fr)
         else:
             raise AnalysisError(f"cannot resolve {module}.{name}")
         self.module_cache[key] = v
         return v
+
+    def _bind_redefined(self, fr, module, value_node):
+        """a module-level statement sees, for a function name defined several times in the module (def _ ...; def _ ...),
+        the definition that precedes it"""
+        m = self.src.modules.get(module)
+        for name, nodes in getattr(m, "func_history", {}).items():
+            if len(nodes) > 1:
+                before = [n for n in nodes if n.lineno < getattr(value_node, "lineno", 0)]
+                if before:
+                    fr.vars[name] = self.decorate(Closure(before[-1], module, f"{module}.{name}"), before[-1], Frame(self, module, module))
 
     def _stub_key(self, qual):
         """the key under which a rule stubbed this function: its own address, or the public address it is re-exported at"""
